@@ -94,6 +94,8 @@ structure State where
 
 inductive Out
   | net (o : MsgLayer.Out)                       -- datagram sent / request delivered / pipe stopped
+  | sendFailed (time : Nat) (remote : Remote) (w : Wire)
+                                                 -- a datagram handed to the transport whose `sendmsg()` raised
   | count (n : Nat)                              -- `update_observation_count(n)`
   | cancelled (sv : Nat)                         -- the cancellation callback of registration `sv` runs
   | render (sv : Nat) (ver : Nat)                -- `render` is called for `sv` and samples `ver`
@@ -116,6 +118,10 @@ inductive Ev
   | release (sv : Nat) (code : Nat) (exc : Bool) -- the suspended render of `sv` finishes
   -- from the event loop: task `sv` runs until it suspends again
   | step (sv : Nat) (plan : Plan) (accept : Bool)
+  -- ... and the transport reports an error for the observer SYNCHRONOUSLY, from inside the send of the
+  -- first datagram the step hands to it (udp6: `sendmsg()` raises -> `error_received` ->
+  -- `MessageManager.dispatch_error` before `send()` returns; recvmsg.py:141-147, udp6.py:699-725)
+  | stepFail (sv : Nat) (plan : Plan) (accept : Bool)
 deriving DecidableEq, Repr
 
 structure TEv where
@@ -292,6 +298,46 @@ def exec (c : State) (sv : Nat) : List Act → State × List Out
     let y := exec x.1 sv as
     (y.1, x.2 ++ y.2)
 
+-- a step during which the transport fails a send -------------------------------------------------
+
+/-- `pipe.add_response` of the task of pipe `sv` when `sendmsg()` raises for the datagram: `some` iff
+the message layer hands a datagram to the transport for this response at all (not when the response
+is queued behind an unacknowledged CON, and not when the pipe has ended).  The order of the code:
+`TokenManager.process_request.on_event` -> `send_message` -> `_send_initially` (`_add_exchange` draws
+the time-out, then `message_interface.send`) -> the transport catches the `OSError` and calls
+`error_received` -> `MessageManager.dispatch_error(remote)`: every request of and to that endpoint is
+stopped (this pipe's stopper among them: its table entry is still there, also for a last event,
+which is only removed when `on_event` returns), the endpoint's exchanges and backlog are dropped ->
+`send()` returns normally, the reply is stored for duplicates.  Nothing goes onto the wire.
+Returns the state, the outputs and what `dispatch_error` put out (the stops). -/
+def failingEmit (c : State) (sv : Nat) : Act → Option (State × List Out × List MsgLayer.Out)
+  | .emit code obs body isLast =>
+    let r := MsgLayer.respond c.ml sv (mkMsg c code obs body) false
+    match r.2 with
+    | [.send tm remote w] =>
+      let e := MsgLayer.handle r.1 (.error remote)
+      let ml' := if isLast then MsgLayer.dropIncoming e.1 sv else e.1
+      some ({ c with ml := ml' },
+            .sendFailed tm remote w :: e.2.map Out.net ++ [.notify sv code obs body isLast], e.2)
+    | _ => none
+  | _ => none
+
+/-- the effects of a step in which the first datagram handed to the transport fails.  After that
+the coroutine goes on as usual until it suspends (pipe.py `_add_event` returns normally since the
+`fix:` commit; `Task.cancel()` called from inside the task itself only takes effect at the next
+suspension): what it puts on the pipe now is discarded (`respond` on a pipe that has ended). -/
+def execF (c : State) (sv : Nat) : List Act → State × List Out × List MsgLayer.Out
+  | [] => (c, [], [])
+  | a :: as =>
+    match failingEmit c sv a with
+    | some (c', os, st) =>
+      let y := exec c' sv as
+      (y.1, os ++ y.2, st)
+    | none =>
+      let x := execAct c sv a
+      let y := execF x.1 sv as
+      (y.1, x.2 ++ y.2.1, y.2.2)
+
 -- the resource side -----------------------------------------------------------------------------
 
 /-- `ServerObservation.trigger(response, is_last=…)` (protocol.py:1431-1446) at version `ver` -/
@@ -353,6 +399,15 @@ def handle (c : State) : Ev → State × List Out
       let x := stepTask c.value t plan accept
       let y := exec c sv x.2
       (putTask y.1 x.1, y.2)
+  | .stepFail sv plan accept =>
+    -- the stoppers called `Task.cancel()`; like every cancellation it is recorded in the task
+    -- records when the step is over (`exec` does not read them)
+    match findTask c sv with
+    | none => (c, [])
+    | some t =>
+      let x := stepTask c.value t plan accept
+      let y := execF c sv x.2
+      (absorb (putTask y.1 x.1) y.2.2, y.2.1)
 
 def step (c : State) (e : TEv) : State × List Out :=
   handle { c with ml := MsgLayer.setNow c.ml e.time } e.ev
